@@ -253,6 +253,15 @@ func (e *Env) eval(ex ast.Expr) Val {
 		p := e.eval(n.X)
 		return e.st.load(p)
 	case *ast.UnaryExpr:
+		if n.Op == token.AND {
+			// &name: the address of a local struct / captured variable (as passed to pointer-receiver methods)
+			if id, ok := n.X.(*ast.Ident); ok && e.fr != nil {
+				if p, ok := e.fr.lookupAddr(e.st, id.Name); ok {
+					return p
+				}
+			}
+			e.fail("cannot take the address of this expression in a contract")
+		}
 		v := e.eval(n.X)
 		switch n.Op {
 		case token.NOT:
@@ -894,6 +903,15 @@ func (e *Env) evalCall(n *ast.CallExpr) Val {
 		// ifaceStr(x): the string boxed in interface value x
 		tag := e.x.prog.typeTag(types.Typ[types.String])
 		return strVal(App(fmt.Sprintf("ipay_%d_0", tag), SStr, arg(0).T()))
+	case "asConn":
+		// asConn(ref): view a reference as *Connection of the package under verification
+		v := arg(0)
+		if e.pkg != nil {
+			if obj := e.pkg.Scope().Lookup("Connection"); obj != nil {
+				return Val{Typ: types.NewPointer(obj.Type()), C: []*T{v.C[0]}}
+			}
+		}
+		e.fail("asConn: no type Connection in this package")
 	case "asHeader":
 		// asHeader(ref): view a reference as an http.Header (map[string][]string)
 		v := arg(0)
